@@ -513,7 +513,7 @@ func (w *World) calleeWritesThrough(c ssa.CallInstruction, addr ssa.Value) bool 
 				continue
 			}
 			p := g.Params[i+off]
-			if paramWritten(p, 0) {
+			if w.paramWritten(p, 0, map[ssa.Value]bool{}) {
 				return true
 			}
 		}
@@ -521,10 +521,11 @@ func (w *World) calleeWritesThrough(c ssa.CallInstruction, addr ssa.Value) bool 
 	return false
 }
 
-func paramWritten(v ssa.Value, depth int) bool {
-	if depth > 5 || v.Referrers() == nil {
+func (w *World) paramWritten(v ssa.Value, depth int, seen map[ssa.Value]bool) bool {
+	if depth > 6 || v.Referrers() == nil || seen[v] {
 		return false
 	}
+	seen[v] = true
 	for _, ref := range *v.Referrers() {
 		switch x := ref.(type) {
 		case *ssa.Store:
@@ -532,28 +533,35 @@ func paramWritten(v ssa.Value, depth int) bool {
 				return true
 			}
 		case *ssa.FieldAddr:
-			if paramWritten(x, depth+1) {
+			if w.paramWritten(x, depth+1, seen) {
 				return true
 			}
 		case *ssa.IndexAddr:
-			if paramWritten(x, depth+1) {
+			if w.paramWritten(x, depth+1, seen) {
 				return true
 			}
 		case ssa.CallInstruction:
-			// handed on: be conservative only for repo callees with bodies
-			if g := staticCallee(x); g != nil && g.Blocks != nil {
-				for i, a := range x.Common().Args {
-					if a == v && i < len(g.Params) && paramWritten(g.Params[i], depth+1) {
-						return true
-					}
-				}
-			} else if g == nil || g.Blocks == nil {
+			cc := x.Common()
+			callees := w.callees(x)
+			if len(callees) == 0 {
 				name := calleeName(x)
-				if strings.Contains(name, "Lock") || strings.Contains(name, "Unlock") {
+				if strings.Contains(name, "Lock") || strings.Contains(name, "Unlock") || strings.Contains(name, "String") || strings.Contains(name, "Equal") || strings.Contains(name, "log") {
 					continue
 				}
-				if !strings.Contains(name, "String") && !strings.Contains(name, "Equal") && !strings.Contains(name, "log") {
+				return true
+			}
+			off := 0
+			if cc.IsInvoke() {
+				off = 1
+			}
+			for _, g := range callees {
+				if g.Blocks == nil {
 					return true
+				}
+				for i, a := range cc.Args {
+					if a == v && i+off < len(g.Params) && w.paramWritten(g.Params[i+off], depth+1, seen) {
+						return true
+					}
 				}
 			}
 		}
